@@ -24,3 +24,4 @@ open Verif.Props.C04B
 #print axioms selector_reparses
 #print axioms font_ok_partial
 #print axioms font_ok_counterexample
+#print axioms background_ok_partial
